@@ -14,8 +14,10 @@ Decided statically (DESIGN.md section 5, C08):
              * the handle ends up pointing at the source's pointee (null after default construction).
   R-C08-2  counter: std::atomic<integral>, initialised to 1 by every constructor; refInc = exactly one atomic
            increment on every path; refDec = exactly one atomic decrement and `delete this` iff the result of
-           that same RMW says the new value is 0 (no separate load); useCount returns a load; nobody else
-           touches the counter.
+           that same RMW says the new value is 0 (no separate load); every decrement is a release operation and the
+           deleting path acquires before `delete this` (acq_rel/seq_cst decrement, or release + acquire fence / acquire
+           load; a relaxed increment is fine); a single non-retried compare_exchange is rejected; useCount returns a
+           load; nobody else touches the counter.
   R-C08-3  operator==/!= of handles are decided by identity of the pointer members; operator< is a strict
            order on the pointer members.
   W-C08-1  RefCountedObject cannot be copied/moved with its count (special members deleted, or user-provided
@@ -703,12 +705,15 @@ def role_of(f):
         return 'default-ctor'
     if f.get('ctor') == 'move':
         return 'move-ctor'
+    rvalue_handle = len(f['params']) == 1 and handle_type(f['params'][0]['ct']) and f['params'][0]['ct'].rstrip().endswith('&&')
     if f.get('ctor'):
+        if rvalue_handle:
+            return 'move-ctor'        # converting move constructor (handle of another pointee type by rvalue reference)
         if len(f['params']) == 1:
             return 'copy-ctor'        # copy, converting and raw-pointer constructors: share the source's pointee
         return None
     if name == 'operator=':
-        if f.get('assign') == 'move':
+        if f.get('assign') == 'move' or rvalue_handle:
             return 'move-assign'
         if len(f['params']) == 1:
             return 'copy-assign'      # copy and raw-pointer assignment
@@ -941,7 +946,7 @@ def post(role, f, env, d0, d, rv, handles):
 # ============================================================================================
 #  R-C08-2: the counter
 # ============================================================================================
-from rkstatic.x_atomics import ATOMIC_INT, PLAIN_INT, atomic_call, cfg_paths, int_eval  # noqa: E402
+from rkstatic.x_atomics import ATOMIC_INT, PLAIN_INT, atomic_call, call_mo, cfg_paths, fence_mo, int_eval  # noqa: E402
 
 
 def check_counter(ctx, tu):
@@ -1104,6 +1109,8 @@ def check_rmw_fn(ctx, tu, f, counter_ids, sign, file):
         rmw = []
         deletes = []
         loads = []
+        seq = []          # ordering-relevant events in path order: ('fence', mo) ('rmw',) ('load', mo) ('delete',)
+        wrote = False
         env_vars = {}     # var decl id -> init expr
         feas = set(range(0, 4))
         cond_seen_before_rmw = False
@@ -1115,12 +1122,24 @@ def check_rmw_fn(ctx, tu, f, counter_ids, sign, file):
                 if x is None:
                     continue
                 a = atomic_call(tu, x, counter_ids)
+                fm = fence_mo(tu, x)
+                if fm is not None:
+                    seq.append(('fence', fm))
                 if a:
                     if a[0] == 'rmw':
                         rmw.append((x, a))
+                        seq.append(('rmw',))
                     elif a[0] == 'load':
                         loads.append(x)
+                        seq.append(('load', call_mo(tu, x, 0) if tu.sd(x).get('q', '').split('::')[-1] == 'load' else None))
+                    elif a[0] == 'write' and a[1].startswith('compare_exchange'):
+                        wrote = True
+                        problems.append(('cas-not-retried', 'the counter is updated by a single %s() that is not retried: when another thread '
+                                         'changes the counter between the preceding load and the exchange, the exchange fails and this '
+                                         '%s is silently dropped (the count drifts and the object is destroyed early / never)'
+                                         % (a[1], 'increment' if sign > 0 else 'decrement'), tu.loc(x)))
                     elif a[0] == 'write':
+                        wrote = True
                         problems.append(('non-atomic-update', 'the counter is written with %s() instead of one atomic read-modify-write: '
                                          'concurrent updates are lost' % a[1], tu.loc(x)))
                     else:
@@ -1129,6 +1148,7 @@ def check_rmw_fn(ctx, tu, f, counter_ids, sign, file):
                     op = tu.strip(tu.kids(x)[0], casts=True) if tu.kids(x) else None
                     if op is not None and op.get('kind') == 'CXXThisExpr':
                         deletes.append(x)
+                        seq.append(('delete',))
                     else:
                         undec.append('delete of something other than `this` at %s' % tu.loc(x))
                 if x.get('kind') == 'DeclStmt':
@@ -1187,13 +1207,38 @@ def check_rmw_fn(ctx, tu, f, counter_ids, sign, file):
                     undec.append('branch `%s` before the atomic operation at %s' % (tu.show(c), tu.loc(c)))
         if len(rmw) != 1 or rmw[0][1][1] != sign:
             what = ', '.join('%+d' % a[1] for x, a in rmw) or 'none'
-            if feas:
+            if feas and not wrote:
                 problems.append(('not-one-rmw', '%s must perform exactly one atomic %s of the counter on every path; this path performs: %s'
                                  % (name, 'increment' if sign > 0 else 'decrement', what), tu.fn_loc(f)))
             continue
         mo = rmw[0][1][3]
-        if mo is not None and sign < 0 and mo not in ('5', '4'):    # seq_cst = 5, acq_rel = 4
-            undec.append('decrement with an explicit memory order (%s) weaker than acq_rel at %s' % (mo, tu.loc(rmw[0][0])))
+        if sign < 0:
+            # ordering of the destruction (relaxed=0 consume=1 acquire=2 release=3 acq_rel=4 seq_cst=5):
+            #  * every decrement must be a release operation (or follow a release fence), so that what this owner did to the
+            #    object happens-before the destruction by whoever drops the last reference;
+            #  * the path that deletes must acquire after its decrement (acq_rel/seq_cst decrement, an acquire fence, or an
+            #    acquire load of the counter), so that the destruction happens-after the other owners' releases.
+            ri = seq.index(('rmw',))
+            before, after = seq[:ri], seq[ri + 1:]
+            if 'delete' in [e[0] for e in after]:
+                after = after[:[e[0] for e in after].index('delete')]
+            mos = [mo] + [e[1] for e in seq if e[0] in ('fence', 'load')]
+            if any(m in ('?', '1') for m in mos):
+                undec.append('memory order that is not a constant / memory_order_consume in %s' % name)
+            else:
+                rel = mo in (None, '5', '4', '3') or any(e[0] == 'fence' and e[1] in ('3', '4', '5') for e in before)
+                acq = mo in (None, '5', '4', '2') or any((e[0] == 'fence' and e[1] in ('2', '4', '5')) or
+                                                         (e[0] == 'load' and e[1] in (None, '2', '5')) for e in after)
+                names = {'0': 'relaxed', '2': 'acquire', '3': 'release'}
+                if not rel:
+                    problems.append(('decrement-not-release', 'the decrement uses memory_order_%s and no release fence precedes it: what this owner '
+                                     'did to the object does not happen-before its destruction by the thread that drops the last reference '
+                                     '(the destructor races with this owner\'s accesses)' % names.get(mo, mo), tu.loc(rmw[0][0])))
+                elif deletes and not acq:
+                    problems.append(('no-acquire-before-delete', 'the decrement uses memory_order_%s and nothing acquires between it and `delete this` '
+                                     '(needed: acq_rel/seq_cst on the decrement, or an acquire fence / acquire load of the counter before the '
+                                     'delete): the destruction does not happen-after the other owners\' last accesses, the destructor races '
+                                     'with them' % names.get(mo, mo), tu.loc(deletes[0])))
         if sign > 0 and deletes:
             problems.append(('delete-in-inc', 'refInc destroys the object', tu.loc(deletes[0])))
         if len(deletes) > 1:
